@@ -289,3 +289,44 @@ def _in_body(node, loop_stmt):
             return any(x is b for b in loop_stmt.body)
         x = p
     return False
+
+
+def path_conditions(fi, astnode):
+    """[(test expr, polarity)] of if-tests whose given branch lies on every
+    path from the function entry to the statement containing astnode
+    (flow-based: covers early return / continue / raise forms that lexical
+    nesting does not show)."""
+    g = cfg_of(fi)
+    target = g.node_containing(astnode)
+    if target is None:
+        return []
+    out = []
+    for T in g.nodes:
+        if T.kind != 'test' or not isinstance(T.stmt, ast.If):
+            continue
+        for s in T.succ:
+            if s.id in T.exc_succ:
+                continue
+            pol = _branch_of(T, s)
+            if pol is None:
+                continue
+            # is target reachable from the entry when edge T -> s is cut?
+            seen = set()
+            stack = [g.entry]
+            hit = False
+            while stack:
+                n = stack.pop()
+                if n.id in seen:
+                    continue
+                seen.add(n.id)
+                if n is target:
+                    hit = True
+                    break
+                for x in n.succ:
+                    if n is T and x is s:
+                        continue
+                    stack.append(x)
+            if not hit:
+                out.append((T.expr if T.expr is not None else T.stmt.test,
+                            pol))
+    return out
